@@ -109,6 +109,27 @@ type pipeRun struct {
 	writeBad   string
 	zeroSpins  int
 	closes     int // Close calls on the transport made by the Conn
+	// after a read-timeout cut the caller extends its deadline and reads on
+	resumed  []byte
+	resumErr error
+}
+
+// inspectedEnd is the offset in the client stream after which the Conn merely
+// passes bytes through: the end of the first record when the hello is not
+// replaced (no ECH accepted), otherwise the end of the first application-data
+// record.
+func (ps *pipeStreams) inspectedEnd() int {
+	off := 0
+	for i, r := range ps.crecs {
+		off += len(r)
+		if i == 0 && !ps.hello[0] {
+			return off
+		}
+		if i > 0 && r[0] == 23 {
+			return off
+		}
+	}
+	return off
 }
 
 // replay drives one fresh Conn over the streams.
@@ -268,6 +289,19 @@ func (ps *pipeStreams) replayX(chunks []int, readBuf int, cutAt int, cutErr erro
 			if err != nil {
 				pr.readErr = err
 				break
+			}
+		}
+		if cutErr == errReadTimeout && cutAt >= 0 && cutAt < len(ps.c) && pr.readErr != nil {
+			// the transport has not failed: the caller's deadline expired. It
+			// is extended and the rest of the stream arrives.
+			sc.CutAt = -1
+			for i := 0; i < 1<<16; i++ {
+				n, err := conn.Read(buf)
+				pr.resumed = append(pr.resumed, buf[:n]...)
+				if err != nil {
+					pr.resumErr = err
+					break
+				}
 			}
 		}
 		write(len(ps.b))
@@ -493,6 +527,23 @@ func executePipe(t *testing.T, prop string, seed uint64, p *PipePlan) *core.Resu
 				}
 				if k < len(ps.c) && k > 0 {
 					res.Probe("cut_mid_stream")
+				}
+				if cerr == errReadTimeout && k < len(ps.c) {
+					// After an expired read deadline the stream goes on. While records
+					// are still inspected the Conn may stay failed for good; once it
+					// only passes bytes through it has no business remembering the
+					// timeout. In no case may it deliver anything but the image.
+					all := append(append([]byte(nil), pr.read...), pr.resumed...)
+					wantAll := normVer(all, full)
+					switch {
+					case bytes.Equal(all, wantAll) && pr.resumErr == io.EOF:
+						res.Probe("resumed_after_read_timeout")
+					case len(pr.resumed) == 0 && pr.resumErr != nil && k < ps.inspectedEnd():
+						// failed for good inside the inspected phase
+					default:
+						hint(k)
+						res.Fail(prop, "cut", "after a read timeout the rest of the stream is neither delivered correctly nor (inspected phase only) refused for good", "%s: %d bytes before, %d bytes after (err=%v), whole image %d bytes, inspection ends at %d", what, len(pr.read), len(pr.resumed), pr.resumErr, len(full), ps.inspectedEnd())
+					}
 				}
 				// the other direction is none of the failed read's business: the
 				// backend's bytes (written after the cut) reach the client, and
